@@ -170,8 +170,19 @@ type CurAlt struct {
 	G   *Term
 	Idx int
 }
+// ListEntry: one element of a slice built by (conditional) appends; it is present iff G holds.
+type ListEntry struct {
+	G *Term
+	V Value
+	U int // append-event id: entries of one list are ordered by U; the same U in two lists is the same element
+}
+
 type Obj struct {
-	Val    Value      // cell content for Alloc/array objects
+	Val    Value      // cell content for Alloc/array objects (nil while a list object is not materialised)
+	List   []ListEntry // guarded element list (valid while HasList); positions are computed only on demand
+	HasList bool
+	ElemZ  Value      // zero value of the element type (for materialisation)
+	Thunk  *appThunk  // how to compute Val positionally (append of tail to base), forced on demand
 	IsMap  bool
 	Log    []MapEntry // map write log (treated immutable; always copy on append)
 	IsIter bool
@@ -693,4 +704,17 @@ func identical(a, b Value) bool {
 		return ok && x.Obj == y.Obj
 	}
 	return false
+}
+
+// appThunk: the positional content of an appended slice = base elements, then tail elements from position len(base).
+type thunkAlt struct {
+	G   *Term
+	O   *Obj // nil = nil slice
+	Off int
+	Len *Term
+	Cap int
+}
+type appThunk struct {
+	Base, Tail []thunkAlt
+	StrTail    *StrV
 }
